@@ -371,7 +371,16 @@ py::object PyTreeSpec::ToPickleable() const {
                 break;
             }
 
-            case PyTreeKind::DefaultDict:
+            case PyTreeKind::DefaultDict: {
+                // The node data is a tuple (default_factory, keys).
+                if (!PyTuple_Check(t[2].ptr()) || PyTuple_GET_SIZE(t[2].ptr()) != 2 ||
+                    !PyList_Check(PyTuple_GET_ITEM(t[2].ptr(), 1))) [[unlikely]] {
+                    throw std::runtime_error("Malformed pickled PyTreeSpec.");
+                }
+                node.node_data = t[2];
+                break;
+            }
+
             case PyTreeKind::Deque:
             case PyTreeKind::Custom: {
                 node.node_data = t[2];
